@@ -42,6 +42,8 @@ def check_sat(formulas, timeout_ms=None, want_model=False, use_cvc5=True, extra_
         s.add(a)
     try:
         r = s.check()
+        if os.environ.get("PYVC_TRACE") and time.time() - t0 > 0.5:
+            print("    [solve %.1fs %s] %s" % (time.time() - t0, r, " ".join(str(formulas[-1]).split())[:200]))
     except z3.Z3Exception as e:
         return Result("unknown", "z3", time.time() - t0, detail="z3 exception: %s" % e)
     if r == z3.unsat:
